@@ -244,16 +244,28 @@ func (x *X) judgeSnapshot(orig *World, s crashSnap, mB, mA *Model, ops []Op) {
 	}
 	// life goes on after the crash: the recovered server must take a new push, and a server started after that must serve
 	// it from a valid layout (a file the crash left half-written has to be repaired, not kept)
-	if s.k%2 != 0 || !rw.k.pushOn() || rw.k.readOnly() || (len(x.out.Viol) > 0 && !x.allResynced) {
+	// (at every torn write and every whole-file write or rename, and at a third of the other crash points)
+	if s.phase == 0 && s.op != "writefile" && s.op != "rename" && s.k%3 != 0 {
 		return
+	}
+	if !rw.k.pushOn() || rw.k.readOnly() || (len(x.out.Viol) > 0 && !x.allResynced) {
+		return
+	}
+	if s.phase == 1 && strings.Contains(s.path, "oci-layout") {
+		x.out.probe("epilogue-after-torn-oci-layout")
 	}
 	blob := []byte("pushed after the crash")
 	bd := digestOf("sha256", blob)
 	man := []byte(`{"schemaVersion":2,"mediaType":"` + mtOCIManifest + `","config":{"mediaType":"` + mtOCIConfig + `","digest":"` + bd + `","size":` + fmt.Sprint(len(blob)) + `},"layers":[]}`)
 	md := digestOf("sha256", man)
 	sup = x.suppress
-	x.suppress = true
+	x.suppress = true // (the model oracles stay off for the recovered server)
 	defer func() { x.suppress = sup }()
+	report := func(oracle, sig, detail string) {
+		x.suppress = sup
+		x.viol([]string{"C09"}, oracle, sig, detail)
+		x.suppress = true
+	}
 	var pushed []string
 	for _, repo := range orig.allRepoNames() {
 		if orig.tainted[repo] {
@@ -262,7 +274,7 @@ func (x *X) judgeSnapshot(orig *World, s crashSnap, mB, mA *Model, ops []Op) {
 		r1 := rw.do(reqSpec{method: "POST", path: "/v2/" + repo + "/blobs/uploads/", query: "digest=" + bd, body: blob, repos: []string{repo}})
 		r2 := rw.do(reqSpec{method: "PUT", path: "/v2/" + repo + "/manifests/after-crash", hdr: map[string][]string{"Content-Type": {mtOCIManifest}}, body: man, repos: []string{repo}})
 		if r1.Code != 201 || r2.Code != 201 {
-			x.viol([]string{"C09"}, "crash.after-recovery", "push refused: "+sigWhere, fmt.Sprintf("%s: the recovered server answers %d / %d to a new blob and manifest push into %s", where, r1.Code, r2.Code, repo))
+			report("crash.after-recovery", "push refused: "+sigWhere, fmt.Sprintf("%s: the recovered server answers %d / %d to a new blob and manifest push into %s", where, r1.Code, r2.Code, repo))
 			return
 		}
 		pushed = append(pushed, repo)
@@ -274,7 +286,7 @@ func (x *X) judgeSnapshot(orig *World, s crashSnap, mB, mA *Model, ops []Op) {
 		rb := rw.do(reqSpec{method: "GET", path: "/v2/" + repo + "/blobs/" + bd, repos: []string{repo}})
 		rm := rw.do(reqSpec{method: "GET", path: "/v2/" + repo + "/manifests/after-crash", hdr: map[string][]string{"Accept": {mtOCIManifest}}, repos: []string{repo}})
 		if rb.Code != 200 || rm.Code != 200 || rm.H.Get("Docker-Content-Digest") != md {
-			x.viol([]string{"C09"}, "crash.after-recovery", "push after recovery lost by the next restart: "+sigWhere, fmt.Sprintf("%s: a push acknowledged by the recovered server is gone after the next clean restart: blob %d, tag %d (%s) in %s", where, rb.Code, rm.Code, rm.H.Get("Docker-Content-Digest"), repo))
+			report("crash.after-recovery", "push after recovery lost by the next restart: "+sigWhere, fmt.Sprintf("%s: a push acknowledged by the recovered server is gone after the next clean restart: blob %d, tag %d (%s) in %s", where, rb.Code, rm.Code, rm.H.Get("Docker-Content-Digest"), repo))
 			return
 		}
 		lb, err := os.ReadFile(filepath.Join(s.dir, repo, "oci-layout"))
@@ -282,7 +294,7 @@ func (x *X) judgeSnapshot(orig *World, s crashSnap, mB, mA *Model, ops []Op) {
 			V string `json:"imageLayoutVersion"`
 		}
 		if err != nil || json.Unmarshal(lb, &lay) != nil || lay.V != "1.0.0" {
-			x.viol([]string{"C09"}, "crash.after-recovery", "oci-layout not repaired: "+sigWhere, fmt.Sprintf("%s: after recovery, a push and a restart %s/oci-layout is %q (%v)", where, repo, trunc(lb, 60), err))
+			report("crash.after-recovery", "oci-layout not repaired: "+sigWhere, fmt.Sprintf("%s: after recovery, a push and a restart %s/oci-layout is %q (%v)", where, repo, trunc(lb, 60), err))
 			return
 		}
 	}
